@@ -1,8 +1,27 @@
 package main
 
 import (
+	"sync"
+	"time"
+
 	"github.com/kardiachain/go-kardia/lib/common"
 	"github.com/kardiachain/go-kardia/lib/crypto"
 )
 
 func hashOf(s string) common.Hash { return common.BytesToHash(crypto.Keccak256([]byte("c19 " + s))) }
+
+var sampleMu sync.Mutex
+var sampleCount = map[string]int{}
+
+// takeSample spreads the six evidence samples over the three parts.
+func takeSample(part string, max int) bool {
+	sampleMu.Lock()
+	defer sampleMu.Unlock()
+	if sampleCount[part] >= max || !r.WantSample() {
+		return false
+	}
+	sampleCount[part]++
+	return true
+}
+
+var deadlineAt time.Time
